@@ -142,7 +142,17 @@ func c03action(k int, w *refW, depth int, rich bool) Action {
 		ct.Table(table)
 		nx(35)
 		w.u16(flags)
-		if rich && vr.Bool("zonerange") {
+		zr := rich && vr.Bool("zonerange")
+		if rich && vr.Bool("zone-set-before") {
+			// the zone was first given the other way round: the later setter decides (an
+			// immediate zone has zone_src 0, a zone taken from a field has the field there)
+			if zr {
+				ct.ZoneImm(vr.U16("zone0"))
+			} else {
+				ct.ZoneRange(regHeader(false), NewNXRange(0, 15))
+			}
+		}
+		if zr {
 			first, last := int(vr.U8("first")), int(vr.U8("last"))
 			vr.Assume(first <= last)
 			vr.Assume(last <= 31)
